@@ -14,11 +14,14 @@ func init() {
 		ID: "C17",
 		Explain: "C17-KEY dependency rule: the key under which group members are accumulated depends on the object path as well as on the rule text, and every walker that can visit several objects in one call (struct walker, map walker over a slice of maps) puts its current object path into the member it registers — so groups in different slice elements, nested objects or map entries cannot merge; " +
 			"C17-VALUE no reflect.ValueOf is applied to something that already is a reflect.Value (the member would be a struct that is never zero and never equal); " +
-			"C17-EVAL either/botheq evaluated abstractly for every group size 1..3 and every pattern of empty/equal members: one clause iff all members are empty (either) / some member differs from the first (botheq), a rule-writing error for a single member; the evaluation runs in every group-capable getError before the emptiness test (C02-MAT). " +
+			"C17-EVAL either/botheq evaluated abstractly for every group size 1..3 and every pattern of empty/equal members: one clause iff all members are empty (either) / some member differs from the first (botheq), that clause names every member of the group, a rule-writing error for a single member; the evaluation runs in every group-capable getError before the emptiness test (C02-MAT). " +
 			"Not covered: reflect.DeepEqual's own semantics; group sizes above 3 (the loop body does not depend on the size).",
 		Assume:  []string{"reflect.DeepEqual and IsZero semantics"},
 		Trusted: []string{"go/types", "go/ssa"},
-		Run:     runC17,
+		Run: func(c *Ctx) {
+			runC17(c)
+			importRules(c, "C12", runC12Input, "C17-OWNVALUE", "each group member keeps the value of its own field/entry until the groups are evaluated at the end of the call: no reflect.Value setter refreshes a shared storage cell per entry (rule C12-INPUT)", 1, nil)
+		},
 	})
 }
 
@@ -72,7 +75,9 @@ func runC17(c *Ctx) {
 		path := fields["objName"] + " " + fields["fieldName"]
 		switch {
 		case strings.Contains(fn, "VStruct"):
-			if !(fields["objName"] == "structName" || strings.HasSuffix(fields["objName"], ".name")) {
+			// the path parameter, or (only on the outermost-object edge, where the path is empty) the type's name
+			outer := we.E.PC[`eq("",structName)`] == 1
+			if !(fields["objName"] == "structName" || outer && strings.HasSuffix(fields["objName"], ".name")) {
 				a.bad = append(a.bad, "struct walker registers a member without its object path (objName = "+shorten(fields["objName"], 60)+")")
 			}
 		case strings.Contains(fn, "VMap"):
@@ -181,12 +186,20 @@ func runC17Eval(c *Ctx) {
 				cases++
 				c.Sites++
 				nW, nE := 0, 0
+				named := map[int]bool{} // members whose field name was written to the clause's name list
 				for _, e := range t.Events {
 					if e.Kind == "write" && keyOf(e.Args[0]) == "errBuf" {
 						if ci := classifyWrite(e); ci.Class == "E" {
 							nE++
 						} else {
 							nW++
+						}
+					} else if e.Kind == "write" {
+						k := keyOf(e.Args[1])
+						for i := 0; i < size; i++ {
+							if strings.Contains(k, fmt.Sprintf("m%d.fieldName", i)) {
+								named[i] = true
+							}
 						}
 					}
 				}
@@ -235,6 +248,8 @@ func runC17Eval(c *Ctx) {
 					bad = append(bad, fmt.Sprintf("size %d: verdict reached without examining every member (%s)", size, shorten(t.Describe(), 160)))
 				case viol && (nW != 1 || nE != 0):
 					bad = append(bad, fmt.Sprintf("size %d: violated group yields %d clauses", size, nW))
+				case viol && len(named) != size:
+					bad = append(bad, fmt.Sprintf("size %d: the clause of a violated group names %d of its %d members (%s)", size, len(named), size, shorten(t.Describe(), 120)))
 				case !viol && nW+nE != 0:
 					bad = append(bad, fmt.Sprintf("size %d: satisfied group yields %d clauses", size, nW+nE))
 				}
